@@ -14,44 +14,28 @@ import (
 	"time"
 )
 
-// modelValues re-solves a refuted obligation asking for the values of the function's parameter symbols
+// modelValues re-solves a refuted obligation asking for the values of the function's parameters and let-bound names
 func modelValues(r *FuncResult, o *Oblig) map[string]string {
-	if r == nil || r.x == nil {
+	if r == nil || r.x == nil || len(r.x.modelTerms) == 0 {
 		return nil
 	}
 	var names []string
-	r.decls.mu.Lock()
-	for n, d := range r.decls.m {
-		if (strings.HasPrefix(n, "p.") || strings.HasPrefix(n, "l.")) && (strings.HasSuffix(d, " Int)") || strings.HasSuffix(d, " Bool)")) && strings.HasPrefix(d, "(declare-const") {
-			names = append(names, n)
-		}
-	}
-	r.decls.mu.Unlock()
-	if len(names) == 0 {
-		return nil
+	for n := range r.x.modelTerms {
+		names = append(names, n)
 	}
 	sortStrings(names)
 	q := r.x.buildQuery(o)
-	// only symbols that occur in the query are declared
-	text := r.decls.render(q)
-	var present []string
 	for _, n := range names {
-		if strings.Contains(text, "(declare-const "+n+" ") {
-			present = append(present, n)
-		}
+		q.Values = append(q.Values, r.x.modelTerms[n])
 	}
-	if len(present) == 0 {
-		return nil
-	}
-	q.Values = present
-	text = r.decls.render(q)
+	text := r.decls.render(q)
 	res := solveText(text, 10000)
 	if res.Status != "sat" {
 		return nil
 	}
 	vals := parseValues(res.Output)
 	out := map[string]string{}
-	for i, n := range present {
+	for i, n := range names {
 		if i < len(vals) {
 			out[n] = normalizeNum(vals[i])
 		}
